@@ -24,7 +24,7 @@ const (
 	watchInterval = 100 * time.Millisecond
 )
 
-var stuckSeen atomic.Int64 // stuck violations in this process; trials are skipped after 2
+var stuckSeen, stuckSeenForced, stuckSeenSeq atomic.Int64 // stuck violations in this process per mode; further trials of the mode are skipped after 2
 
 // awaitDone waits for done. It returns false only when, since the last change
 // of progress(), at least the grace period has passed AND the harness itself
